@@ -422,12 +422,22 @@ func ClassLine(cases []Case) string {
 func WriteAll(w *os.File, cases []Case) {
 	fmt.Fprintln(w, ClassLine(cases))
 	fmt.Fprintf(w, "FONTCFG\t%s\n", RepoFontSpec())
+	oracles := ""
 	for _, c := range cases {
 		if _, ok := NIn[c.Kind]; !ok {
+			if c.Kind == "ORACLE" {
+				oracles = strings.Join(c.Fields, ",")
+			}
 			fmt.Fprintln(w, c.Kind+"\t"+strings.Join(c.Fields, "\t"))
 			continue
 		}
-		fmt.Fprintln(w, c.Kind+"\t"+strings.Join(c.Fields, "\t")+"\t"+Run(c))
+		res := Run(c)
+		fmt.Fprintln(w, c.Kind+"\t"+strings.Join(c.Fields, "\t")+"\t"+res)
+		if c.Kind == "FMT" && strings.Contains(oracles, "fmt") {
+			if msg := CheckFmt(c.Fields, res); msg != "" {
+				fmt.Fprintln(w, "GOFAIL\tfmt\t"+strings.ReplaceAll(msg, "\t", " "))
+			}
+		}
 	}
 	CleanupFonts()
 }
